@@ -5,10 +5,10 @@ solvent.  Inductive step obligations (arbitrary pre-state satisfying the solvenc
 pattern of nested sends): miner money methods, market deposit/withdraw + per-deal accounting, paych (in C16),
 reward award_block_reward."""
 from .common import *
-from . import miner_money, C14, C06
+from . import miner_money, C14, C06, C16
 
 PROPERTY = 'C01'
-CRATES = ['fil_actors_runtime', 'fil_actor_miner', 'fil_actor_market', 'fil_actor_reward']
+CRATES = ['fil_actors_runtime', 'fil_actor_miner', 'fil_actor_market', 'fil_actor_reward', 'fil_actor_paych']
 REWARD_CRATE = 'fil_actor_reward'
 
 
@@ -66,14 +66,112 @@ def props_award(E, res):
     return P
 
 
+# ---- market.settle_deal_payments: every amount slashed while settling a batch is burnt ------------------------
+# Cuts (declared): State::get_active_deal_or_process_timeout and State::process_deal_update are replaced by their
+# result contracts (their own accounting is decided in C07 / C08); the loop, the accumulation of slashed amounts, the
+# transaction and the burn are the real code.
+
+def run_settle(ndeals):
+    def run(E):
+        from .market_common import MARKET, F
+        rt, rtref = new_rt(E)
+        rt.state = LazyV('st', 'State')
+        ST, DPF, DSF = F()
+        E.ctx.env['lazy_vec_lens'] = [0, 1]
+        ids = [E.materialize('u64', 'deal%d' % i).v for i in range(ndeals)]
+        for a, b in zip(ids, ids[1:]):
+            E.ctx.assume(a < b)            # a bit field is a set; iteration is ascending
+        pens = []
+        pays = []
+
+        def hook(E2, m, kt, val):
+            if m.base == 'map(st.%d)' % ST['proposals']:
+                E2.ctx.assume(z3.And(fget(E2, val, DPF['client'], ADDR).proto == 0, fget(E2, val, DPF['provider'], ADDR).proto == 0))
+            return None
+        E.ctx.env['map_value_hook'] = hook
+
+        def cut_load(E2, call):
+            nm = 'load%d' % len([1 for _ in E2.ctx.env.setdefault('loads', [])])
+            E2.ctx.env['loads'].append(nm)
+            ch = E2.ctx.choose(4, nm)
+            ty = type_args(call.dest_ty)[0] if call.dest_ty else 'state::LoadDealState'
+            if ch == 0:
+                return ok(EnumV(ty, 0, 'TooEarly', {}), call.dest_ty)
+            if ch == 1:
+                pen = z3.Int(nm + '.slashed')
+                E2.ctx.assume(pen >= 0)
+                pens.append(pen)
+                E2.ctx.env['pens'] = list(pens)
+                return ok(EnumV(ty, 1, 'ProposalExpired', {('ProposalExpired', 0): BigV(pen)}), call.dest_ty)
+            if ch == 2:
+                return ok(EnumV(ty, 2, 'Loaded', {('Loaded', 0): LazyV(nm + '.state', 'deal::DealState')}), call.dest_ty)
+            code = z3.Int(nm + '.err')
+            E2.ctx.assume(z3.And(code >= 16, code < 100))
+            return err(models_fvm.actor_error(E2, code), call.dest_ty)
+
+        def cut_update(E2, call):
+            nm = 'upd%d' % len(E2.ctx.env.setdefault('upds', []))
+            E2.ctx.env['upds'].append(nm)
+            if E2.ctx.choose(2, nm) == 1:
+                code = z3.Int(nm + '.err')
+                E2.ctx.assume(z3.And(code >= 16, code < 100))
+                return err(models_fvm.actor_error(E2, code), call.dest_ty)
+            pay = z3.Int(nm + '.payment')
+            E2.ctx.assume(pay >= 0)
+            done = E2.ctx.fresh_bool(nm + '.completed')
+            rem = E2.ctx.fresh_bool(nm + '.remove')
+            return ok(StructV('tuple', {0: BigV(0), 1: BigV(pay), 2: done, 3: rem}), call.dest_ty)
+        E.cuts['State::get_active_deal_or_process_timeout'] = cut_load
+        E.cuts['State::process_deal_update'] = cut_update
+        E.ctx.env['pens'] = []
+        E.ctx.env['balance0'] = rt.balance
+        params = StructV('types::SettleDealPaymentsParams', {0: models_fvm.BitSetV(ids)})
+        fn = find_fn(E, MARKET, 'settle_deal_payments')
+        return E.run_function(fn, [rtref, params]), rt
+    return run
+
+
+def props_settle(E, res):
+    env = res.ctx.env
+    rt = env['rt']
+    ctx = res.ctx
+    if res.kind != 'return':
+        return [('no panic (%s)' % str(res.info)[:60], False)]
+    pens = env.get('pens', [])
+    total = sum(pens) if pens else 0
+    if is_err(res.value):
+        return [('a failed settlement batch either commits nothing or failed in the burn', b_or(rt.commits == 0, any(not s.ok for s in rt.sends)))]
+    P = []
+    burns = [s for s in rt.sends]
+    for s in burns:
+        P.append(('the only value leaving the market while settling goes to the burnt-funds actor', b_and(s.to.proto == 0, s.to.key == 99, zv(s.method) == 0)))
+    sent = sum(s.value for s in burns) if burns else 0
+    P.append(('every amount slashed from timed-out proposals in the batch is burnt: nothing is stranded in the market actor', sent == total))
+    P.append(('at most one burn per batch', len(burns) <= 1))
+    return P
+
+
 def build(tier):
     O = miner_money.build_for('C01', tier)
+    for n in ([1, 2] if tier == 'quick' else [1, 2, 3]):
+        O.append(Obligation('market.settle_deal_payments[%d deals]' % n, run_settle(n), props_settle,
+                            descr='amounts slashed from timed-out proposals while settling a batch are burnt in full (one burn), nothing else leaves',
+                            bounds='%d deal ids; CUTS: get_active_deal_or_process_timeout and process_deal_update replaced by result contracts (decided in C07/C08)' % n,
+                            max_paths=200000))
     for o in C14.build(tier):
         if o.name.startswith('miner.withdraw_balance'):
             O.append(o)
     for o in C06.build(tier):
         if 'withdraw_balance[accounting]' in o.name or 'add_balance' in o.name:
             O.append(o)
+    # payment channel: the channel holds at least what it owes the payee; collect pays out exactly the balance
+    MONEY = ('amount owed', 'payee gets exactly', 'remainder', 'two payouts', 'plain transfers', 'no panic', 'failed collect')
+    def money_only(f):
+        return lambda E, res: [(l, P) for (l, P) in f(E, res) if any(k in l for k in MONEY)]
+    for o in C16.build(tier):
+        if ('update_channel_state' in o.name and 'merges=2' not in o.name) or 'collect' in o.name:
+            O.append(Obligation(o.name, o.run, money_only(o.props), descr='C01 clauses of: ' + o.descr, bounds=o.bounds,
+                                max_paths=o.max_paths, scenario=o.scenario, wall_s=getattr(o, 'wall_s', None)))
     O.append(Obligation('reward.award_block_reward', run_award, props_award,
                         descr='reward paid = min(gas + epoch reward share, balance); never more than held; undeliverable reward burnt; total counter exact; always Ok',
                         bounds='one call; state/params symbolic; both nested sends may fail', max_paths=20000))
